@@ -219,17 +219,19 @@ func eqLS(a, b LockSet) bool {
 
 // Locksets is the result of the must-hold analysis.
 type Locksets struct {
-	p     *Prog
-	Entry map[*ssa.Function]LockSet
-	At    map[ssa.Instruction]LockSet // lockset immediately BEFORE the instruction
-	roots map[*ssa.Function]bool
+	p        *Prog
+	Entry    map[*ssa.Function]LockSet
+	implicit map[*ssa.Function][]ssa.Instruction // boxing sites standing in for fmt callbacks
+	Dead     map[*ssa.Function]bool
+	At       map[ssa.Instruction]LockSet // lockset immediately BEFORE the instruction
+	roots    map[*ssa.Function]bool
 }
 
 // ComputeLocksets runs the interprocedural must-lockset analysis over funcs.
 // A function is a root (entered with no locks) if it is exported, is a
 // goroutine entry, has its address taken, or has no caller in the module.
 func (p *Prog) ComputeLocksets(funcs []*ssa.Function) *Locksets {
-	ls := &Locksets{p: p, Entry: map[*ssa.Function]LockSet{}, At: map[ssa.Instruction]LockSet{}, roots: map[*ssa.Function]bool{}}
+	ls := &Locksets{p: p, Entry: map[*ssa.Function]LockSet{}, At: map[ssa.Instruction]LockSet{}, roots: map[*ssa.Function]bool{}, Dead: map[*ssa.Function]bool{}, implicit: map[*ssa.Function][]ssa.Instruction{}}
 	inSet := map[*ssa.Function]bool{}
 	for _, f := range funcs {
 		inSet[f] = true
@@ -249,11 +251,39 @@ func (p *Prog) ComputeLocksets(funcs []*ssa.Function) *Locksets {
 			}
 		}
 	}
+	// Methods the module never calls directly but that fmt may call back
+	// (String/Error/GoString/Format on module types): attribute them to the
+	// module sites that box a value of the receiver type into an interface.
+	for _, f := range funcs {
+		if f.Signature.Recv() == nil {
+			continue
+		}
+		switch f.Name() {
+		case "String", "Error", "GoString", "Format":
+		default:
+			continue
+		}
+		rt := f.Signature.Recv().Type()
+		for _, g := range funcs {
+			funcInstrs(g, func(in ssa.Instruction) {
+				mi, ok := in.(*ssa.MakeInterface)
+				if !ok || !types.Identical(mi.X.Type(), rt) {
+					return
+				}
+				sites[f] = append(sites[f], siteT{nil, EdgeCall})
+				ls.implicit[f] = append(ls.implicit[f], mi)
+			})
+		}
+	}
 	for _, f := range funcs {
 		root := len(sites[f]) == 0
-		if f.Object() != nil && f.Object().Exported() && f.Parent() == nil {
+		if f.Object() != nil && f.Object().Exported() && f.Parent() == nil && len(ls.implicit[f]) == 0 {
 			// exported method or function: callable from outside with nothing held
+			// (String methods of unexported receiver types reached only via fmt are handled above)
 			root = true
+			if rn := recvNamed(f); rn != nil && !rn.Obj().Exported() && len(sites[f]) > 0 && !ifaceMethodOfExported(f) {
+				root = false
+			}
 		}
 		if addrTaken(f) {
 			root = true
@@ -262,6 +292,11 @@ func (p *Prog) ComputeLocksets(funcs []*ssa.Function) *Locksets {
 			if s.kind == EdgeGo {
 				root = true
 			}
+		}
+		if len(sites[f]) == 0 && f.Parent() == nil && f.Object() != nil && !f.Object().Exported() && !addrTaken(f) && f.Name() != "init" {
+			// unexported, never called, never referenced: dead code
+			ls.Dead[f] = true
+			continue
 		}
 		if root {
 			ls.roots[f] = true
@@ -284,7 +319,27 @@ func (p *Prog) ComputeLocksets(funcs []*ssa.Function) *Locksets {
 			}
 			var m LockSet
 			any := false
+			var cands []siteT
 			for _, s := range sites[f] {
+				if s.cs != nil {
+					cands = append(cands, s)
+				}
+			}
+			var implicitAt []LockSet
+			for _, mi := range ls.implicit[f] {
+				if at, ok := ls.At[mi]; ok {
+					implicitAt = append(implicitAt, at)
+				}
+			}
+			for _, at := range implicitAt {
+				if !any {
+					m = at.clone()
+					any = true
+				} else {
+					m = meetLS(m, at)
+				}
+			}
+			for _, s := range cands {
 				at, ok := ls.At[s.cs]
 				if !ok {
 					continue // caller not yet analysed
@@ -382,4 +437,130 @@ func (ls *Locksets) Held(in ssa.Instruction, obj string) byte {
 		return s[obj]
 	}
 	return 0
+}
+
+func recvNamed(f *ssa.Function) *types.Named {
+	if f.Signature.Recv() == nil {
+		return nil
+	}
+	t := f.Signature.Recv().Type()
+	if pt, ok := t.(*types.Pointer); ok {
+		t = pt.Elem()
+	}
+	n, _ := t.(*types.Named)
+	return n
+}
+
+// ifaceMethodOfExported: conservatively true when an exported method of an
+// unexported type may be reached through an exported interface (so it must
+// be treated as externally callable).
+func ifaceMethodOfExported(f *ssa.Function) bool {
+	rn := recvNamed(f)
+	if rn == nil {
+		return true
+	}
+	pk := rn.Obj().Pkg()
+	if pk == nil {
+		return true
+	}
+	sc := pk.Scope()
+	for _, nm := range sc.Names() {
+		tn, ok := sc.Lookup(nm).(*types.TypeName)
+		if !ok || !tn.Exported() {
+			continue
+		}
+		it, ok := tn.Type().Underlying().(*types.Interface)
+		if !ok {
+			continue
+		}
+		for i := 0; i < it.NumMethods(); i++ {
+			if it.Method(i).Name() == f.Name() {
+				if types.Implements(f.Signature.Recv().Type(), it) {
+					return true
+				}
+			}
+		}
+	}
+	return false
+}
+
+// Acquires computes, per function, the abstract locks it may acquire
+// directly or through awaited module calls.
+func (p *Prog) Acquires(funcs []*ssa.Function) map[*ssa.Function]map[string]bool {
+	acq := map[*ssa.Function]map[string]bool{}
+	for _, f := range funcs {
+		acq[f] = map[string]bool{}
+		funcInstrs(f, func(in ssa.Instruction) {
+			if op, ok := p.lockOpOf(in); ok && (op.Method == "Lock" || op.Method == "RLock") {
+				acq[f][op.Obj] = true
+			}
+		})
+	}
+	for changed := true; changed; {
+		changed = false
+		for _, f := range funcs {
+			for _, cs := range CallSites(f) {
+				if kindName(cs) == "go" {
+					continue
+				}
+				for _, e := range p.Callees(cs) {
+					if e.Callee == nil {
+						continue
+					}
+					for l := range acq[e.Callee] {
+						if !acq[f][l] {
+							acq[f][l] = true
+							changed = true
+						}
+					}
+				}
+			}
+		}
+	}
+	return acq
+}
+
+// Reacquire is a call or lock operation that acquires a lock already held.
+type Reacquire struct {
+	In   ssa.Instruction
+	Lock string
+	Via  string
+}
+
+// Reacquisitions lists every site where a held lock is acquired again
+// (directly, or by an awaited call into a function that acquires it).
+func (ls *Locksets) Reacquisitions(funcs []*ssa.Function, acq map[*ssa.Function]map[string]bool) []Reacquire {
+	var out []Reacquire
+	for _, f := range funcs {
+		if _, ok := ls.Entry[f]; !ok {
+			continue
+		}
+		funcInstrs(f, func(in ssa.Instruction) {
+			held := ls.At[in]
+			if len(held) == 0 {
+				return
+			}
+			if op, ok := ls.p.lockOpOf(in); ok {
+				if (op.Method == "Lock" || op.Method == "RLock") && !op.Deferred && held[op.Obj] != 0 {
+					out = append(out, Reacquire{in, op.Obj, "direct " + op.Method})
+				}
+				return
+			}
+			cs, ok := in.(ssa.CallInstruction)
+			if !ok || kindName(cs) != "call" {
+				return
+			}
+			for _, e := range ls.p.Callees(cs) {
+				if e.Callee == nil {
+					continue
+				}
+				for l := range acq[e.Callee] {
+					if held[l] != 0 {
+						out = append(out, Reacquire{in, l, "call of " + ls.p.FuncKey(e.Callee)})
+					}
+				}
+			}
+		})
+	}
+	return out
 }
